@@ -87,6 +87,8 @@ LENIENT = {
     "concat": "CONCAT binds its output for IRI or unbound arguments instead of raising a type error",
     "avg": "AVG over an empty group is unbound instead of 0",
     "order": "ORDER BY compares untyped lexical forms: numbers sort before IRIs and plain literals by code point (SPARQL: IRIs before literals)",
+    "sideways": "a FILTER / VALUES UNDEF / UNION branch inside a nested group sees variables bound by a preceding sibling (bind join substitutes the left solution into the right-hand pattern); SPARQL evaluates the nested group on its own",
+    "sideways+": "nested group evaluated with the bindings of a preceding sibling substituted, combined with the untyped expression semantics",
     "several": "explained only by several relaxations of the expression semantics together",
 }
 
